@@ -27,9 +27,14 @@ BOUNDS = {"quick": {"n": 4, "ns": 3, "ni": 3}, "thorough": {"n": 7, "ns": 5, "ni
 B = {}
 M = 2   # MAX_LENGTH used throughout
 BOUNDS_TEXT = ("MAX_LENGTH=2.  Line receivers: every byte stream of <= n bytes (n=4 quick, 7 thorough), "
-               "delimiter CRLF or LF, every split index, raw-mode switch / pause at line 1 or 2.  Netstring: "
-               "1-2 symbolic length bytes + symbolic separator + <= ns symbolic bytes.  IntN (N=8,16,32): "
-               "symbolic prefix bytes + <= ni symbolic bytes.  Two deliveries at every split index.")
+               "delimiter CRLF or LF, every split index; LineReceiver additionally with: raw mode from line 1|2, "
+               "pause at line 1|2 (resumed after the last delivery), one raw byte after line 1|2 then "
+               "setLineMode(rest).  Netstring: every stream of 1-2 length bytes + separator byte + rest with "
+               "len(length)+len(rest) <= ns (3 quick, 5 thorough), all bytes symbolic; plus the shapes "
+               "'<v>:<v bytes><byte><0-1 byte>' (v = 0..3) and two back-to-back strings of 0..2 bytes.  "
+               "IntN (N=8,16,32): every stream of <= prefix+ni bytes (ni=3 quick, 4 thorough), pause at string "
+               "1|2.  Round trip sendLine/sendString -> dataReceived for payloads of 0..3 bytes.  Two deliveries "
+               "at every split index throughout.")
 OUTSIDE = ["streams longer than the bound; three or more deliveries (two deliveries at every split index "
            "are explored; the receivers keep all state in one buffer + mode flags)",
            "MAX_LENGTH values other than 2 (the real defaults 16384 / 99999 are scaled down on the instance; "
